@@ -11,7 +11,7 @@ Line-protocol driver for C04 (all numbers decimal, hashes/bytes hex; float64 val
   CS hash stake threshold total [P:k:v ...]     -> same, p = pOf threshold total (first field after `ok j` block: p)
   M seedhex role index                          -> hex of MakeM
   P hash j                                      -> hex of computePriority (real Keccak-256)
-  MR | MC round | MQ round index step store     -> ok | ok | origin round index step          SortitionManager cache (stateful)
+  MR | MC round | MW round (rewind onto another branch + its clear) | MQ round index step store -> ok | ok | ok | origin [stale-branch]         SortitionManager cache (stateful)
   SP verdict                                    -> accept|refuse|crash                        Server.verifyPriority given VrfVerifyPriority's verdict
   SS nodeRound nodeIndex msgRound msgIndex verdict -> accept|refuse|crash                     Server.verifySortition given VrfVerifySortition's verdict
   VS total threshold stake sub (ok:hash|err) [P:k:v ...]            -> verdict | need …
@@ -169,7 +169,7 @@ def stepPure (line : String) : String :=
       | _, _, _, _, _, _, _ => "bad-op"
     | _ => "bad-op"
 
-/-- the SortitionManager cache is the only state: MR (reset) | MC round | MQ round index step store(0/1) -> origin -/
+/-- the SortitionManager cache is the only state: MR (reset) | MC round | MW round | MQ round index step store(0/1) -> origin -/
 def step (m : Mgr) (line : String) : Mgr × String :=
   match fields line with
   | ["MR"] => (Mgr.init, "ok")
@@ -177,11 +177,15 @@ def step (m : Mgr) (line : String) : Mgr × String :=
     match r.toNat? with
     | some r => (m.clear r, "ok")
     | none => (m, "bad-op")
+  | ["MW", r] =>
+    match r.toNat? with
+    | some r => (m.rewind r, "ok")
+    | none => (m, "bad-op")
   | ["MQ", r, i, s, st] =>
     match r.toNat?, i.toNat?, s.toNat? with
     | some r, some i, some s =>
       let (m', o) := m.query ⟨r, i, s⟩ (st == "1")
-      (m', s!"{o.round} {o.index} {o.step}")
+      (m', s!"{o.key.round} {o.key.index} {o.key.step}" ++ (if o.epoch = m.epoch then "" else " stale-branch"))
     | _, _, _ => (m, "bad-op")
   | _ => (m, stepPure line)
 
